@@ -22,7 +22,7 @@ pub mod c20;
 pub mod smoke;
 
 pub fn all() -> Vec<Prop> {
-    vec![Prop { id: "C01", sharded: true, meta: c01::meta, run: c01::run, budget: (50, 1500) }, Prop { id: "C02", sharded: true, meta: c02::meta, run: c02::run, budget: (50, 1500) }, Prop { id: "C20", sharded: true, meta: c20::meta, run: c20::run, budget: (50, 1500) }, Prop { id: "C08", sharded: true, meta: c08::meta, run: c08::run, budget: (60, 2400) }, Prop { id: "C10", sharded: true, meta: c10::meta, run: c10::run, budget: (60, 1200) }, Prop { id: "C17", sharded: true, meta: c17::meta, run: c17::run, budget: (50, 1200) }, Prop { id: "C07", sharded: false, meta: c07::meta, run: c07::run, budget: (50, 1500) }, Prop { id: "C15", sharded: false, meta: c15::meta, run: c15::run, budget: (50, 600) }, Prop { id: "C16", sharded: false, meta: c16::meta, run: c16::run, budget: (50, 900) }, Prop { id: "C05", sharded: false, meta: c05::meta, run: c05::run, budget: (55, 1500) }, Prop { id: "C11", sharded: true, meta: c11::meta, run: c11::run, budget: (55, 1500) }, Prop { id: "C12", sharded: true, meta: c12::meta, run: c12::run, budget: (55, 1800) }, Prop { id: "C13", sharded: true, meta: c13::meta, run: c13::run, budget: (55, 1800) }, Prop { id: "C14", sharded: true, meta: c14::meta, run: c14::run, budget: (55, 1800) }, Prop { id: "C18", sharded: true, meta: c18::meta, run: c18::run, budget: (55, 1500) }, Prop { id: "C19", sharded: true, meta: c19::meta, run: c19::run, budget: (55, 1500) }, Prop { id: "C03", sharded: false, meta: c03::meta, run: c03::run, budget: (55, 600) }, Prop { id: "C04", sharded: false, meta: c04::meta, run: c04::run, budget: (55, 600) }, Prop { id: "C06", sharded: false, meta: c06::meta, run: c06::run, budget: (55, 600) }, Prop { id: "SMOKE", sharded: false, meta: smoke::meta, run: smoke::run, budget: (60, 60) }, Prop { id: "C09", sharded: false, meta: c09::meta, run: c09::run, budget: (50, 1500) }]
+    vec![Prop { id: "C01", sharded: true, meta: c01::meta, run: c01::run, budget: (50, 1500) }, Prop { id: "C02", sharded: true, meta: c02::meta, run: c02::run, budget: (50, 1500) }, Prop { id: "C20", sharded: true, meta: c20::meta, run: c20::run, budget: (50, 1500) }, Prop { id: "C08", sharded: true, meta: c08::meta, run: c08::run, budget: (60, 2400) }, Prop { id: "C10", sharded: true, meta: c10::meta, run: c10::run, budget: (60, 1200) }, Prop { id: "C17", sharded: true, meta: c17::meta, run: c17::run, budget: (50, 1200) }, Prop { id: "C07", sharded: false, meta: c07::meta, run: c07::run, budget: (50, 1500) }, Prop { id: "C15", sharded: false, meta: c15::meta, run: c15::run, budget: (50, 600) }, Prop { id: "C16", sharded: true, meta: c16::meta, run: c16::run, budget: (50, 900) }, Prop { id: "C05", sharded: false, meta: c05::meta, run: c05::run, budget: (55, 1500) }, Prop { id: "C11", sharded: true, meta: c11::meta, run: c11::run, budget: (55, 1500) }, Prop { id: "C12", sharded: true, meta: c12::meta, run: c12::run, budget: (55, 1800) }, Prop { id: "C13", sharded: true, meta: c13::meta, run: c13::run, budget: (55, 1800) }, Prop { id: "C14", sharded: true, meta: c14::meta, run: c14::run, budget: (55, 1800) }, Prop { id: "C18", sharded: true, meta: c18::meta, run: c18::run, budget: (55, 1500) }, Prop { id: "C19", sharded: true, meta: c19::meta, run: c19::run, budget: (55, 1500) }, Prop { id: "C03", sharded: false, meta: c03::meta, run: c03::run, budget: (55, 600) }, Prop { id: "C04", sharded: false, meta: c04::meta, run: c04::run, budget: (55, 600) }, Prop { id: "C06", sharded: false, meta: c06::meta, run: c06::run, budget: (55, 600) }, Prop { id: "SMOKE", sharded: false, meta: smoke::meta, run: smoke::run, budget: (60, 60) }, Prop { id: "C09", sharded: false, meta: c09::meta, run: c09::run, budget: (50, 1500) }]
 }
 
 pub fn lookup(id: &str) -> Option<Prop> {
